@@ -72,8 +72,9 @@ type ValidateCall struct {
 	BlockID string
 	Hash    string
 	OK      bool
-	CtxErr  bool // context already cancelled at entry
-	GaveUp  bool // the context was cancelled while the call was in progress and the consumer returned nil without a verdict
+	CtxErr  bool   // context already cancelled at entry
+	GaveUp  bool   // the context was cancelled while the call was in progress and the consumer returned nil without a verdict
+	PrevID  string // id of the prevBlock the library passed ("" for nil): identifies the term that made the call
 }
 
 type ProposalCall struct {
@@ -81,6 +82,7 @@ type ProposalCall struct {
 	BlockID         string
 	CtxErr          bool
 	CancelledDuring bool // the context was cancelled while the call was in progress (its result was produced under a cancelled context)
+	PrevID          string
 }
 
 // BlockUtils is one node's consumer-side block logic.
@@ -120,7 +122,7 @@ func (u *BlockUtils) RequestNewBlockProposal(ctx context.Context, h primitives.B
 	u.counter++
 	b := &Block{H: h, Ref: primitives.TimestampSeconds(1000 + uint32(h)), ID: fmt.Sprintf("%s/%d/%d", u.Me, h, u.counter), Prev: BlockID(prevBlock), Valid: true}
 	u.Proposed[b.ID] = b
-	u.Proposals = append(u.Proposals, ProposalCall{H: h, BlockID: b.ID, CtxErr: ctxErr, CancelledDuring: !ctxErr && ctx.Err() != nil})
+	u.Proposals = append(u.Proposals, ProposalCall{H: h, BlockID: b.ID, CtxErr: ctxErr, CancelledDuring: !ctxErr && ctx.Err() != nil, PrevID: BlockID(prevBlock)})
 	return b, b.Hash()
 }
 
@@ -155,7 +157,7 @@ func (u *BlockUtils) ValidateBlockProposal(ctx context.Context, h primitives.Blo
 	}
 	if u.GiveUpOnCancel && !ctxErr && ctx.Err() != nil {
 		u.mu.Lock()
-		u.Validates = append(u.Validates, ValidateCall{H: h, BlockID: BlockID(block), Hash: string(hash), OK: false, GaveUp: true})
+		u.Validates = append(u.Validates, ValidateCall{H: h, BlockID: BlockID(block), Hash: string(hash), OK: false, GaveUp: true, PrevID: BlockID(prevBlock)})
 		u.mu.Unlock()
 		return nil
 	}
@@ -167,7 +169,7 @@ func (u *BlockUtils) ValidateBlockProposal(ctx context.Context, h primitives.Blo
 		err = errors.New("rejected by this node's verdict table")
 	}
 	u.mu.Lock()
-	u.Validates = append(u.Validates, ValidateCall{H: h, BlockID: BlockID(block), Hash: string(hash), OK: err == nil, CtxErr: ctxErr})
+	u.Validates = append(u.Validates, ValidateCall{H: h, BlockID: BlockID(block), Hash: string(hash), OK: err == nil, CtxErr: ctxErr, PrevID: BlockID(prevBlock)})
 	u.mu.Unlock()
 	return err
 }
